@@ -355,7 +355,17 @@ def check_genbank_record_order(spec, ctx):
         for k_, part in enumerate(spec["records"]):
             rec_spec = {"obj": json.loads(json.dumps(part["obj"])), "genome": part["genome"]}
             coll_, t_ = gb_export(rec_spec, spec["flavor"], False)
-            texts.append(t_.replace("chr1", "seq%d" % k_))
+            t_ = t_.replace("chr1", "seq%d" % k_)
+            if spec.get("strip_gene_rows") == k_:
+                # a record whose features hang together through their locus tag only (no gene rows): the locus-tag grouping and the
+                # positional grouping see it differently, so it shows which of the two the parser chose for this record
+                rec = SeqIO.read(io.StringIO(t_), "genbank")
+                rec.features = [f_ for f_ in rec.features if f_.type != "gene"]
+                buf = io.StringIO()
+                SeqIO.write([rec], buf, "genbank")
+                t_ = buf.getvalue()
+                ctx.label("record_without_gene_rows")
+            texts.append(t_)
         base = None
         for perm in itertools.permutations(range(len(texts))):
             joined = "".join(texts[i] for i in perm)
@@ -393,7 +403,14 @@ def strat_gb_record_order(draw, tier="quick"):
         gs = recs[k]["obj"]["genes"]
         if len(gs) >= 2:
             gs[1]["locus_tag"] = gs[0]["locus_tag"]
-    return {"records": recs, "flavor": draw(st.sampled_from(["PROKARYOTIC", "EUKARYOTIC"]))}
+    sp = {"records": recs, "flavor": draw(st.sampled_from(["PROKARYOTIC", "EUKARYOTIC"]))}
+    if draw(st.booleans()):
+        k2 = draw(st.integers(0, n - 1))
+        sp["strip_gene_rows"] = k2
+        gs2 = recs[k2]["obj"]["genes"]
+        if len(gs2) >= 2 and draw(st.booleans()):
+            gs2[1]["locus_tag"] = gs2[0]["locus_tag"]     # two features of that record share a tag
+    return sp
 
 
 @st.composite
@@ -430,7 +447,7 @@ PROP = Prop(
         Leg("types_merge", check_types_merge, strategy=strat_types, n_quick=1500, n_thorough=15000, must_hit=["type_key_present", "shared_keys"],
             rule="type-like qualifier keys (*_class, gbkey, *_type; mixed case; substrings) and near misses; pairs of qualifier dictionaries for merge_qualifiers"),
         Leg("genbank_record_order", check_genbank_record_order, strategy=strat_gb_record_order, n_quick=15, n_thorough=200, shards_quick=8,
-            must_hit=["locus_tag_collision_on_one_record"],
+            must_hit=["locus_tag_collision_on_one_record", "record_without_gene_rows"],
             rule="2..3 GenBank records that reuse each other's locus tags (one of them possibly holding two genes with one tag), concatenated in every order and parsed in HYBRID and LOCUS_TAG mode: the genes parsed for each sequence (or the refusal) must not depend on the order of the records"),
         Leg("genbank_permutations", check_genbank_permutations, strategy=strat_gb_perm, n_quick=25, n_thorough=300, shards_quick=8,
             must_hit=["permuted_genbank"],
